@@ -44,7 +44,10 @@ def correspondence(ctx):
                 ctx.violation('c12:reopen:second-write-raised:' + note.split()[3].rstrip(':'),
                               'C12: writing the reopened hybrid image fails: %s (case %s)' % (note[:200], c['label']), rep)
             elif note.startswith('write after the edit on the reopened object failed'):
-                if "'L' format" in note:
+                if note.rstrip().endswith(': []'):
+                    # nothing raised: rm_isohybrid + an add_isohybrid that was refused, the image is simply not hybrid
+                    ctx.count('hybridparse:re-add-refused-after-reopen', 1)
+                elif "'L' format" in note:
                     ctx.violation('c12:write-fails:partition-offset-beyond-padded-image', 'C12: %s (case %s)' % (note[:200], c['label']), rep)
                 else:
                     ctx.violation('c12:reopen:write-after-edit-failed', 'C12: %s (case %s)' % (note[:240], c['label']), rep)
